@@ -8,7 +8,9 @@ import (
 	"fmt"
 	"io"
 	"io/fs"
+	"os"
 	"runtime/debug"
+	"runtime/pprof"
 	"strings"
 	"time"
 )
@@ -89,4 +91,18 @@ func ccGuard(f func()) (panicked bool, what string) {
 	}()
 	f()
 	return false, ""
+}
+
+// ccProfile starts a CPU profile when CC_PROF names a file (development aid).
+func ccProfile() func() {
+	p := os.Getenv("CC_PROF")
+	if p == "" {
+		return func() {}
+	}
+	f, err := os.Create(p)
+	if err != nil {
+		return func() {}
+	}
+	pprof.StartCPUProfile(f)
+	return func() { pprof.StopCPUProfile(); f.Close() }
 }
